@@ -254,18 +254,127 @@ def name_id(s):
     return int(m.group(2)) + (UNKNOWN_BASE if m.group(1) == "u" else 0)
 
 
+# Argument VALUES are a generated dimension.  A value id is base + KSTEP * kind:
+# kind 0 is the truthy string "v<base>"; the other kinds are defined-but-falsy
+# Python objects.  The parser may only look at `value is not None`: the model
+# and the spec see every one of them as `Some id`.
+KSTEP = 400
+_ZERO_FLOAT = float(0)
+SINGLETON_KINDS = {1: 0, 2: False, 3: "", 4: _ZERO_FLOAT, 9: ()}
+FRESH_KINDS = {5: "Decimal(0)", 6: "{}", 7: "empty suds object", 8: "[]"}
+ALL_FALSY_KINDS = [1, 2, 3, 4, 5, 6, 7, 8, 9]
+CLIENT_FALSY_KINDS = [1, 2, 3, 4, 5, 6, 7]       # a list value is expanded into repeated elements: not used there
+_FRESH_OBJECTS = {}
+
+
+def falsy_id(base, kind):
+    """The canonical id of the falsy value of `kind` standing where value `base` stood."""
+    return KSTEP * kind if kind in SINGLETON_KINDS else KSTEP * kind + base % KSTEP
+
+
 def pval(v):
-    return None if v is None else "v%d" % v
+    """Value id -> the Python object handed to suds (the same object for the same id)."""
+    if v is None:
+        return None
+    kind, base = divmod(v, KSTEP)
+    if kind == 0:
+        return "v%d" % base
+    if kind in SINGLETON_KINDS:
+        return SINGLETON_KINDS[kind]
+    if v not in _FRESH_OBJECTS:
+        if kind == 5:
+            import decimal
+            o = decimal.Decimal(0)
+        elif kind == 6:
+            o = {}
+        elif kind == 7:
+            import suds.sudsobject
+            o = suds.sudsobject.Object()
+        else:
+            o = []
+        _FRESH_OBJECTS[v] = o
+    return _FRESH_OBJECTS[v]
 
 
 def val_id(x):
+    """The object the implementation handed on -> value id (by identity for the
+    falsy kinds, by text for the strings); 998 = not a value of this call."""
     if x is None:
         return None
+    for kind, o in SINGLETON_KINDS.items():
+        if x is o:
+            return KSTEP * kind
+    for v, o in _FRESH_OBJECTS.items():
+        if x is o:
+            return v
     if isinstance(x, str):
         m = re.fullmatch(r"v([0-9]+)", x)
-        if m:
+        if m and int(m.group(1)) < KSTEP:
             return int(m.group(1))
     return 998
+
+
+def falsify(vec, choose):
+    """Replace defined values of a vector by falsy ones: choose(position, id) -> kind
+    (0 keeps the value).  Positions count the defined values, positional first."""
+    args, kw = vec
+    pos = [0]
+
+    def f(v):
+        if v is None:
+            return None
+        k = choose(pos[0], v)
+        pos[0] += 1
+        return falsy_id(v, k) if k else v
+    return [f(v) for v in args], [(n, f(v)) for n, v in kw]
+
+
+def value_variants(rng, vec, kinds):
+    """The vector itself, all defined values falsy, and (two or more defined
+    values) the two alternating patterns: a falsy value in every position,
+    next to a truthy one and next to another falsy one."""
+    ndef = sum(1 for v in vec[0] if v is not None) + sum(1 for _, v in vec[1] if v is not None)
+    out = [vec]
+    if ndef == 0:
+        return out
+    k0 = rng.randrange(len(kinds))
+    out.append(falsify(vec, lambda i, v: kinds[(k0 + i) % len(kinds)]))
+    if ndef >= 2:
+        out.append(falsify(vec, lambda i, v: kinds[(k0 + i) % len(kinds)] if i % 2 == 0 else 0))
+        out.append(falsify(vec, lambda i, v: kinds[(k0 + i) % len(kinds)] if i % 2 == 1 else 0))
+    return out
+
+
+def random_falsify(rng, vec, kinds, p=0.4):
+    if rng.random() < 0.35:
+        return vec
+    return falsify(vec, lambda i, v: rng.choice(kinds) if rng.random() < p else 0)
+
+
+def loose_bind(n, args, kw):
+    """Positional-then-keyword binding that ignores surplus/unknown/duplicates
+    (used only to decode which value an element of a sent request carries)."""
+    d = {}
+    for k, v in kw:
+        d.setdefault(k, v)
+    return [args[i] if i < len(args) else d.get(i + 1) for i in range(n)]
+
+
+def decode_body(kids, bound):
+    """[(element name, text)] -> [(name id, value id)].  A truthy value is read
+    from its text; an element standing for a parameter bound to a falsy value
+    is decoded as that value whatever its lexical form (0, false, empty...)."""
+    out = []
+    for nm, tx in kids:
+        i = name_id(nm)
+        b = bound[i - 1] if 1 <= i <= len(bound) else None
+        if b is not None and b >= KSTEP:
+            out.append((i, b))
+        elif tx in ("", None):
+            out.append((i, None))
+        else:
+            out.append((i, val_id(tx)))
+    return out
 
 
 def expected_positional_text(r, a, g):
@@ -674,7 +783,13 @@ def run(ck):
                 pool = vec_cache.setdefault(("ce", n), core_vectors(n) + extra_vectors(n))
                 vectors += rng.sample(pool, k)
         dpt, choice = depth(t), has_choice(t)
-        for vi, (args, kw) in enumerate(vectors):
+        # values: every falsy/truthy pattern for <= 2 parameters, a seeded pattern otherwise
+        if n <= 2 and not mode.startswith("random"):
+            valued = [(vi, w, j > 0) for vi, v in enumerate(vectors)
+                      for j, w in enumerate(value_variants(rng, v, ALL_FALSY_KINDS))]
+        else:
+            valued = [(vi, random_falsify(rng, v, ALL_FALSY_KINDS), False) for vi, v in enumerate(vectors)]
+        for vi, (args, kw), variant in valued:
             if len(set(k for k, _ in kw)) != len(kw):
                 continue
             for extra in (True, False):
@@ -682,6 +797,10 @@ def run(ck):
                     continue
                 if not extra and mode == "core" and n >= 3 and vi % 4:
                     continue        # with checking off only counts and callbacks can differ
+                if not extra and variant and vi % 4:
+                    continue
+                if any(v is not None and v >= KSTEP for v in args) or any(v is not None and v >= KSTEP for _, v in kw):
+                    ck.count("parse_args:falsy-value")
                 res, log, raw = drive_parse_args(argparser, defs, args, kw, extra)
                 cases.append("mkC %s %s (Some %s) %s %s %s %s" % (
                     cbool(extra), cp, ct, c_values(args), c_kw(kw), res, c_log(log)))
@@ -726,9 +845,25 @@ def run(ck):
         vectors = [v for v in vectors if len(set(k for k, _ in v[1])) == len(v[1])]
         by_binding = {}
         required_outside = [nm for nm, opt, anc in flatten(t) if not opt and not any(c for _, c in anc)]
-        for extra in (True, False):
+        # values: every vector with truthy values, and once more (checking on) with a seeded
+        # half of the value ids replaced by defined-but-falsy objects - the same id always by
+        # the same object, so that call styles binding the same values stay comparable
+        kindmap = {rng.randint(1, n): rng.choice(CLIENT_FALSY_KINDS)}
+
+        def kind_for(i, v):
+            if v not in kindmap:
+                kindmap[v] = rng.choice(CLIENT_FALSY_KINDS) if rng.random() < 0.5 else 0
+            return kindmap[v]
+        runs = [(e, a_, k_) for e in (True, False) for a_, k_ in vectors]
+        for v in vectors:
+            fv = falsify(v, kind_for)
+            if fv != (list(v[0]), list(v[1])):
+                runs.append((True, fv[0], fv[1]))
+        for extra, args, kw in runs:
             c1.set_options(extraArgumentErrors=extra)
-            for args, kw in vectors:
+            if True:
+                if any(v is not None and v >= KSTEP for v in args) or any(v is not None and v >= KSTEP for _, v in kw):
+                    ck.count("client:falsy-value")
                 a = [pval(v) for v in args]
                 k = dict((pname(nm), pval(v)) for nm, v in kw)
                 r = call_client(c1, rec1, a, k)
@@ -750,7 +885,7 @@ def run(ck):
                 if r[0] == "sent":
                     try:
                         first, kids = body_children(r[1])
-                        body = [(name_id(nm), None if tx in ("", None) else val_id(tx)) for nm, tx in kids]
+                        body = decode_body(kids, loose_bind(n, args, kw))
                         if first.name != "Wrapper":
                             body = [(999, None)]
                     except Exception:   # noqa
